@@ -93,7 +93,7 @@ class Resolver:
             k = l
             while '{' not in text and k < len(lines) and k < l + 12: text += ' ' + lines[k]; k += 1
             h = parse_impl_header(text)
-            return (self._unalias(h[0]), h[1], 'written') if h else None
+            return (self._unalias(h[0]), h[1], 'written', text) if h else None
         m = re.match(r'^(\w+)', text)
         if m and not text.startswith('define_language'):
             # derive attribute: trait is the identifier; the type is the next struct/enum item
@@ -186,6 +186,32 @@ class Resolver:
                 if len(c) == 1: r = c[0]
         if r is None: raise Unsupported('cannot resolve ' + spec)
         return r
+
+    def impl_env(self, fname, callee):
+        """type environment of a method of a generic impl (`impl<L: ..> Trait for Bind<L>`) for a call whose self type is spelled out in the
+        callee text (`<Bind<AppliedId> as Trait>::m`): {'L': 'AppliedId'}; None when not applicable"""
+        m = _IMPL_AT.search(fname)
+        if not m: return None
+        pre = ''
+        for p, _ in self.crates:
+            if p and fname.startswith(p): pre = p
+        info = self.impl_info.get((pre, m.group(0)))
+        if not info or len(info) < 4: return None
+        hdr = info[3]
+        mg = re.match(r'^impl\s*<(.*?)>\s', hdr)
+        if not mg: return None
+        params = [x.split(':')[0].strip() for x in split_top(mg.group(1)) if not x.strip().startswith("'")]
+        mt = re.search(r'\bfor\s+([\w:]+)\s*<(.*)>\s*(where|\{|$)', hdr) or re.match(r'^impl\s*<.*?>\s+([\w:]+)\s*<(.*)>\s*(where|\{|$)', hdr)
+        if not mt: return None
+        formal = [x.strip() for x in split_top(mt.group(2))]
+        mc = re.match(r'^<\s*(?:[\w:]+::)?(\w+)\s*<(.*)>\s+as\s', callee)
+        if not mc: return None
+        actual = [x.strip() for x in split_top(mc.group(2))]
+        if len(actual) != len(formal): return None
+        env = {}
+        for f_, a_ in zip(formal, actual):
+            if f_ in params and not re.match(r'^([A-Z]\w?|Self)$', a_): env[f_] = a_
+        return env or None
 
     def closure(self, loc, hint=None):
         """MIR function of the closure written at loc. Macro-generated closures share one location: they are told apart by
